@@ -4,6 +4,7 @@
   and the definitional semantics.
 -/
 import Nlmodel.Model.Value
+import Nlmodel.Proofs.Lemmas.FloatRound
 namespace Nl
 namespace C06
 
@@ -219,6 +220,66 @@ theorem C06_logic (op : BinOp) (hop : op = .and ∨ op = .or) (l r : View) :
       | .bool a, .bool b => .ok (.bool (if op = .and then a && b else a || b))
       | _, _ => .error .type) := by
   rcases hop with rfl | rfl <;> cases l <;> cases r <;> rfl
+
+/-! ### floats: the exact model rounds correctly (IEEE-754 round to nearest, ties to even) — `Lemmas/FloatRound*.lean`
+
+  Every finite binary64 magnitude `a` (bits without the sign) has the value `F64R.V a × 2^-1074`; `F64R.adist` is the
+  distance of two naturals; `F64R.IsRN n d r` says: `r` is finite, no finite magnitude is nearer to `n/d` than `r`, and
+  if another one is equally near, `r` is even. -/
+
+/-- CORRECT ROUNDING: for every positive fraction `n/d`, the magnitude the model computes (`F64.roundMag`, used by
+    every arithmetic operation, by `int -> float` and by decimal parsing) is, below the IEEE overflow threshold
+    `2^1024 - 2^970`, THE correctly rounded one — nearest, ties to even, and it is the only magnitude with that
+    property; from the threshold on it is infinity.  Normal and subnormal results, any size of `n` and `d`. -/
+theorem C06_float_rounding_is_correct {n d : Nat} (hn : 0 < n) (hd : 0 < d) :
+    (n < d * F64R.ovfThreshold ∧ F64R.IsRN n d (F64.roundMag n d) ∧ ∀ r, F64R.IsRN n d r → r = F64.roundMag n d) ∨
+    (d * F64R.ovfThreshold ≤ n ∧ F64.roundMag n d = F64.infBits) :=
+  F64R.roundMag_spec hn hd
+
+/-- a value that is itself representable is returned exactly (no rounding) -/
+theorem C06_float_exact_when_representable {n d a : Nat} (hd : 0 < d) (ha : a < F64.infBits)
+    (h : n * 2 ^ 1074 = F64R.V a * d) : F64.roundMag n d = a :=
+  F64R.roundMag_exact hd ha h
+
+/-- the result depends on the rational number only, not on how the fraction is written -/
+theorem C06_float_rounding_respects_equal_fractions {n d n' d' : Nat} (hd : 0 < d) (hd' : 0 < d') (h : n * d' = n' * d) :
+    F64.roundMag n d = F64.roundMag n' d' :=
+  F64R.roundMag_congr hd hd' h
+
+/-- `*` on finite floats: the correctly rounded EXACT product, sign = xor of the signs -/
+theorem C06_float_mul {x y : F64.Bits} (hx : F64.isFinite x = true) (hy : F64.isFinite y = true) :
+    F64.mul x y = F64.ofRat (F64.isNeg x != F64.isNeg y) (F64R.mag x * F64R.mag y) (2 ^ 1074 * 2 ^ 1074) :=
+  F64R.mul_finite hx hy
+
+/-- `/` on finite floats with a non-zero divisor: the correctly rounded EXACT quotient -/
+theorem C06_float_div {x y : F64.Bits} (hx : F64.isFinite x = true) (hy : F64.isFinite y = true) (hz : F64.isZero y = false) :
+    F64.div x y = F64.ofRat (F64.isNeg x != F64.isNeg y) (F64R.mag x) (F64R.mag y) :=
+  F64R.div_finite hx hy hz
+
+/-- `+` on finite floats: the correctly rounded EXACT sum; an exact zero sum is `-0` only if both operands are negative -/
+theorem C06_float_add {x y : F64.Bits} (hx : F64.isFinite x = true) (hy : F64.isFinite y = true) :
+    F64.add x y = if F64R.sval x + F64R.sval y = 0 then F64.zero (F64.isNeg x && F64.isNeg y)
+      else F64.ofRat (decide (F64R.sval x + F64R.sval y < 0)) (F64R.sval x + F64R.sval y).natAbs (2 ^ 1074) :=
+  F64R.add_finite hx hy
+
+/-- `-` likewise -/
+theorem C06_float_sub {x y : F64.Bits} (hx : F64.isFinite x = true) (hy : F64.isFinite y = true) :
+    F64.sub x y = if F64R.sval x - F64R.sval y = 0 then F64.zero (F64.isNeg x && !F64.isNeg y)
+      else F64.ofRat (decide (F64R.sval x - F64R.sval y < 0)) (F64R.sval x - F64R.sval y).natAbs (2 ^ 1074) :=
+  F64R.sub_finite hx hy
+
+/-- what `ofRat` delivers: the requested sign and the correctly rounded magnitude, or infinity from the threshold on -/
+theorem C06_float_ofRat (s : Bool) {n d : Nat} (hn : 0 < n) (hd : 0 < d) :
+    F64.isNeg (F64.ofRat s n d) = s ∧
+    ((n < d * F64R.ovfThreshold ∧ F64.isFinite (F64.ofRat s n d) = true ∧ F64R.IsRN n d (F64.absBits (F64.ofRat s n d))) ∨
+     (d * F64R.ovfThreshold ≤ n ∧ F64.ofRat s n d = F64.inf s)) :=
+  F64R.ofRat_spec s hn hd
+
+/-- comparison of floats that are not NaN is the order of their exact values (so `-0 = +0`, and `<` is a strict
+    total order on the non-NaN floats that agrees with the reals) -/
+theorem C06_float_lt_is_value_order {x y : F64.Bits} (hx : F64.isNaN x = false) (hy : F64.isNaN y = false) :
+    F64.lt x y = decide (F64R.sval x < F64R.sval y) ∧ F64.eq x y = decide (F64R.sval x = F64R.sval y) :=
+  ⟨F64R.lt_eq_sval hx hy, F64R.eq_eq_sval hx hy⟩
 
 /-- non-vacuity / regression anchors: the documented wrong answers of the pinned tree are errors or
     right answers in the model (these are tests, labelled as such) -/
